@@ -608,8 +608,9 @@ def simple_font(basefont="Foo", widths=None, first=32, encoding="WinAnsiEncoding
 
 
 def page_doc(content, fonts=None, mediabox=(0, 0, 612, 792), extra=None, rotate=None, contents_list=None,
-             resources=None, page_extra=None, filt=False):
-    """Minimal one-page document.  fonts: {resource name: font dict}."""
+             resources=None, page_extra=None, filt=False, before=None):
+    """Minimal one-page document.  fonts: {resource name: font dict}.
+    before: content streams of pages that come before the page (same resources and box)."""
     fonts = fonts if fonts is not None else {"F1": simple_font()}
     objs = {1: D(Type=N("Catalog"), Pages=R(2)), 2: D(Type=N("Pages"), Kids=[R(3)], Count=1)}
     fd = {}
@@ -639,6 +640,13 @@ def page_doc(content, fonts=None, mediabox=(0, 0, 612, 792), extra=None, rotate=
     if page_extra:
         page.update(dk(page_extra))
     objs[3] = page
+    if before:
+        kids = []
+        for i, c in enumerate(before):
+            objs[80 + i] = Stream({}, c)
+            objs[60 + i] = D(Type=N("Page"), Parent=R(2), MediaBox=list(mediabox), Resources=res, Contents=R(80 + i))
+            kids.append(R(60 + i))
+        objs[2] = D(Type=N("Pages"), Kids=kids + [R(3)], Count=len(kids) + 1)
     if extra:
         objs.update(extra)
     return build_pdf(objs)
